@@ -175,9 +175,102 @@ func (sl *stSlicer) Slice(b buffer.Buffer, childDigest digest.Digest) (buffer.Bu
 	return buffer.NewValidatedBufferFromByteSlice(append([]byte(nil), child...)), slices
 }
 
+// ---------- lock-discipline probes ----------
+//
+// Every call into the key-location map and the location-blob map (including
+// the invocation of a getter or a put finalizer) is supposed to happen while
+// the store's global lock is held.  The probes wrap the two structures as
+// they are handed to the blob access; when a call arrives while NOBODY holds
+// the lock, a concurrent writer could run at that very point, so the harness
+// lets one run there: a burst of complete uploads that rotates the blocks.
+// On the unchanged tree no such window exists and the probes never fire (the
+// model has no counterpart for them); on a tree that opens a window, the read
+// that was under way then returns another object's bytes or a spurious
+// integrity error, which the monitors report.
+
+type stProbe struct {
+	st   *stStore
+	lock *sync.RWMutex
+}
+
+func (p *stProbe) window() {
+	if p.st.injecting || p.st.ba == nil {
+		return
+	}
+	if p.lock.TryLock() {
+		p.lock.Unlock()
+		p.st.inject()
+	}
+}
+
+type stProbeKLM struct {
+	inner local.KeyLocationMap
+	*stProbe
+}
+
+func (k stProbeKLM) Get(key local.Key) (local.Location, error) {
+	k.window()
+	return k.inner.Get(key)
+}
+func (k stProbeKLM) Put(key local.Key, l local.Location) error {
+	k.window()
+	return k.inner.Put(key, l)
+}
+
+type stProbeLBM struct {
+	inner local.LocationBlobMap
+	*stProbe
+}
+
+func (l stProbeLBM) Get(loc local.Location) (local.LocationBlobGetter, bool) {
+	l.window()
+	g, nr := l.inner.Get(loc)
+	return func(d digest.Digest) buffer.Buffer {
+		l.window()
+		return g(d)
+	}, nr
+}
+func (l stProbeLBM) Put(sizeBytes int64) (local.LocationBlobPutWriter, error) {
+	l.window()
+	w, err := l.inner.Put(sizeBytes)
+	if err != nil {
+		return nil, err
+	}
+	return func(b buffer.Buffer) local.LocationBlobPutFinalizer {
+		f := w(b) // the copy phase legitimately runs without the lock
+		return func() (local.Location, error) {
+			l.window()
+			return f()
+		}
+	}, nil
+}
+
+// inject runs the adversarial writer: enough complete uploads of the largest
+// object that fits a block to rotate every block of the store.
+func (st *stStore) inject() {
+	st.injecting = true
+	defer func() { st.injecting = false }()
+	big := -1
+	for o, c := range st.objs {
+		if len(c) <= st.bs && (big < 0 || len(c) > len(st.objs[big])) {
+			big = o
+		}
+	}
+	if big < 0 || len(st.objs[big]) == 0 {
+		return
+	}
+	st.injected++
+	for k := 0; k < st.rotations; k++ {
+		d := st.digest(big, 0)
+		st.ba.Put(context.Background(), d, buffer.NewCASBufferFromByteSlice(d, st.objs[big], buffer.UserProvided))
+	}
+}
+
 // ---------- the store under test ----------
 
 type stThread struct {
+	fed    int // upload: bytes fed so far
+	size   int // upload: size announced by the digest
 	kind   int // 1 put, 2 get, 3 gfc
 	src    *stSource
 	done   chan error
@@ -192,6 +285,9 @@ type stStore struct {
 	blockDev  bool
 	hier      bool
 	sector    int
+	injecting bool
+	injected  int
+	rotations int
 	bs        int
 	negs      int64
 	objs      [][]byte
@@ -358,14 +454,18 @@ func newStStore(cfg, objs, anc Sx) (*stStore, bool) {
 	const tableSize = 9973
 	klm := local.NewHashingKeyLocationMap(local.NewInMemoryLocationRecordArray(tableSize, lbm), tableSize, 0x1234567, 16, 64, st.label)
 	var lock sync.RWMutex
+	st.rotations = old + cur + nw + 2
+	probe := &stProbe{st: st, lock: &lock}
+	var klmP local.KeyLocationMap = stProbeKLM{inner: klm, stProbe: probe}
+	var lbmP local.LocationBlobMap = stProbeLBM{inner: lbm, stProbe: probe}
 	if hier {
-		st.ba = local.NewHierarchicalCASBlobAccess(klm, lbm, &lock, capabilities.NewStaticProvider(&remoteexecution.ServerCapabilities{}))
+		st.ba = local.NewHierarchicalCASBlobAccess(klmP, lbmP, &lock, capabilities.NewStaticProvider(&remoteexecution.ServerCapabilities{}))
 	} else {
 		kf := digest.KeyWithoutInstance
 		if instKeys {
 			kf = digest.KeyWithInstance
 		}
-		st.ba = local.NewFlatBlobAccess(klm, lbm, kf, &lock, st.label, capabilities.NewStaticProvider(&remoteexecution.ServerCapabilities{}))
+		st.ba = local.NewFlatBlobAccess(klmP, lbmP, kf, &lock, st.label, capabilities.NewStaticProvider(&remoteexecution.ServerCapabilities{}))
 	}
 	return st, true
 }
@@ -435,7 +535,7 @@ func (st *stStore) step(op Sx) (Sx, bool) {
 		if _, busy := st.threads[tid]; busy {
 			return bad()
 		}
-		t := &stThread{kind: 1, src: newStSource(), done: make(chan error, 1)}
+		t := &stThread{kind: 1, src: newStSource(), done: make(chan error, 1), size: len(st.objs[o])}
 		d := st.digest(o, i)
 		go func() {
 			t.done <- st.ba.Put(ctx, d, buffer.NewCASBufferFromChunkReader(d, t.src, buffer.UserProvided))
@@ -451,6 +551,7 @@ func (st *stStore) step(op Sx) (Sx, bool) {
 		if !ok || t.kind != 1 {
 			return bad()
 		}
+		t.fed += op.Nth(2).Len()
 		t.src.feed <- stFeed{data: op.Nth(2).Bytes()}
 		return waitPut(tid, t)
 	case 3: // PutEnd tid err
@@ -571,6 +672,13 @@ func (st *stStore) step(op Sx) (Sx, bool) {
 		for _, t := range st.threads {
 			if t.kind == 2 || t.kind == 3 {
 				return bad() // only while no reader is open (see Model.v)
+			}
+			if t.kind == 1 && t.size > 0 && t.fed == t.size {
+				// The validating chunk reader withholds the chunk that completes the
+				// object until the source reports EOF, so that chunk reaches the
+				// device later than the model writes it.  Corruption in that window
+				// is not explored.
+				return Sx{}, false
 			}
 		}
 		r, off, ln := op.Nth(1).Int(), op.Nth(2).Int(), op.Nth(3).Int()
